@@ -1,3 +1,3 @@
 L=/repo/Python/libraries
-export PYTHONPATH=/verif/design_probes/shims:$L/recognizers-text:$L/recognizers-number:$L/recognizers-number-with-unit:$L/recognizers-date-time:$L/recognizers-sequence:$L/recognizers-choice:$L/datatypes-timex-expression:$L/recognizers-suite
+export PYTHONPATH=/verif/shims:$L/recognizers-text:$L/recognizers-number:$L/recognizers-number-with-unit:$L/recognizers-date-time:$L/recognizers-sequence:$L/recognizers-choice:$L/datatypes-timex-expression:$L/recognizers-suite
 export PYTHONDONTWRITEBYTECODE=1
